@@ -147,6 +147,31 @@ fn main() {
             res.sort();
             out(&format!("clean {}{}", res.join(" "), if let Err(e) = r { format!(" err:{e:?}") } else { String::new() }));
         }
+        "clean-twice" => {
+            // the same PROCESS tries to clean up twice (its process-local state cache is alive in between); a line on stdin releases the second attempt
+            for round in 0..2 {
+                let mut res = vec![];
+                let r = Node::<ipc::Service>::list(config, |s| {
+                    match s {
+                        NodeState::Dead(v) => {
+                            let id = v.id().value();
+                            res.push(match v.try_remove_stale_resources() {
+                                Ok(()) => format!("{id}:ok"),
+                                Err(e) => format!("{id}:err:{e:?}"),
+                            });
+                        }
+                        other => res.push(format!("0:not-dead:{}", state_name(&other))),
+                    }
+                    CallbackProgression::Continue
+                });
+                res.sort();
+                out(&format!("clean{round} {}{}", res.join(" "), if let Err(e) = r { format!(" err:{e:?}") } else { String::new() }));
+                if round == 0 {
+                    let mut line = String::new();
+                    let _ = std::io::stdin().lock().read_line(&mut line);
+                }
+            }
+        }
         "cleaner" => {
             let name = FileName::new(args[3].as_bytes()).unwrap();
             let mode = args.get(4).map(|s| s.as_str()).unwrap_or("");
